@@ -188,14 +188,24 @@ class Engine:
                 sol.add(st.pc[j])   # quantified facts are dropped: over-approximates feasibility (sound)
             stack.append(ids[j])
         if extra is None:
-            return sol.check() != z3.unsat
+            return self._check_patiently(sol) != z3.unsat
         sol.push()
         if not _has_quantifier(extra):
             sol.add(extra)
-        r = sol.check()
+        r = self._check_patiently(sol)
         sol.pop()
         self.nfeas += 1
         return r != z3.unsat
+
+    def _check_patiently(self, sol):
+        """a quantifier-free feasibility query that times out (busy machine, nonlinear terms) is retried with a long budget,
+        so that which paths are explored does not depend on the load; a final `unknown` counts as feasible (sound)"""
+        r = sol.check()
+        if r == z3.unknown:
+            sol.set("timeout", self.feas_timeout * 20)
+            r = sol.check()
+            sol.set("timeout", self.feas_timeout)
+        return r
 
     def branch(self, st, cond, note=""):
         """fork on a z3 Bool; yields (state, python bool) for each feasible side"""
